@@ -26,7 +26,7 @@ CHECKS = {
  "C07": (True, "model_checking",
    "explicit-state BFS over operation sequences on the real TlsRecordsParser (canonical-state dedup, witness-history replay) against an accumulate-then-parse reference",
    "All operation sequences over a 19-record alphabet x {parse_record, parse_record_nocopy} + reset up to the stated depth, all k-way splits (incl. empty fragments and cuts inside the header) of every catalogue payload interleaved with foreign-type records / nocopy / reset to fixpoint, and the 10 MiB cap histories are executed on the real object; every transition is compared with the reference model (value with slice provenance, in-progress flag, buffer, state preservation on refusals).",
-   "Trusted: parse_tls_record_with_header as the inner one-shot oracle (its correctness is C03/C04); payloads <= 45 bytes; S0 depth bound as reported in the evidence.",
+   "Trusted: parse_tls_record_with_header as the inner one-shot oracle (its correctness is C03/C04); payloads <= 45 bytes; S0 depth bound as reported in the evidence (5 quick / 8 thorough). Thorough tier: state counts cross-checked with an independent stateright BFS over the same transition function.",
    "DESIGN.md section 3 C07"),
  "C02": (True, "exploration",
    "bounded-exhaustive enumeration of the header space (type x declared length x version x cut point) and of record payloads over positional alphabets, against a reference framing function",
@@ -123,7 +123,7 @@ for p in props:
     })
 m = {
  "version": 1,
- "setup_cmd": "cd /verif/harness && CARGO_NET_OFFLINE=true cargo build --release --offline -p vchecks --bins && /verif/target/release/c18 --prebuild",
+ "setup_cmd": "cd /verif/harness && CARGO_NET_OFFLINE=true cargo build --release --offline -p vchecks --bins && cargo build --release --offline -p vsr && /verif/target/release/c18 --prebuild",
  "hooks": {
    "guard": "tls_parser_verif",
    "enable": "RUSTFLAGS/--cfg tls_parser_verif via /verif/harness/.cargo/config.toml ([build] rustflags); the harness path-depends on /repo so every check rebuilds from its working tree",
